@@ -4,6 +4,8 @@ import SpecVerif.Model.DFT
 import SpecVerif.Model.Correlation
 import SpecVerif.Model.Periodogram
 import SpecVerif.Model.Levinson
+import SpecVerif.Model.RealFn
+import SpecVerif.Model.Sides
 import SpecVerif.Proofs.Lemmas.Basic
 import SpecVerif.Proofs.Lemmas.DFT
 import SpecVerif.Proofs.C01
